@@ -167,6 +167,10 @@ def worker(args, scratch):
                 if nreq > 1:
                     cnt["keepalive_refusal_sequences"] = cnt.get("keepalive_refusal_sequences", 0) + 1
                 conn.close()
+                if common.is_timeout(status):
+                    if not res.get("inconclusive"):
+                        res.setdefault("inconclusive", []).append("client socket watchdog (60 s) fired while waiting for the proxy; not a verdict")
+                    continue
                 res["evaluations"] += 1
                 ups = w.upstream(vid)
                 wit = {"kind": kind, "dest": dest, "user": ident.user, "method": method, "target": target, "status": status, "relayed_to": [u.host for u in ups]}
